@@ -5,8 +5,9 @@ namespace Spine.Appr
 
 def Inv2 (s : St) : Prop := ∀ w, w ∈ s.seen → K s w = 1
 
-theorem step_inv2 (s : St) (ev : Ev) (h : Inv s) (h2 : Inv2 s) : Inv2 (step Cfg.clean s ev) := by
+theorem step_inv2 (s : St) (ev : Ev) (hnd : ev ≠ .drop) (h : Inv s) (h2 : Inv2 s) : Inv2 (step Cfg.clean s ev) := by
   cases ev with
+  | drop => exact absurd rfl hnd
   | arrive w0 =>
     simp only [step]
     split
@@ -88,20 +89,25 @@ theorem step_inv2 (s : St) (ev : Ev) (h : Inv s) (h2 : Inv2 s) : Inv2 (step Cfg.
         exact h1
     · exact h2
 
-theorem run_invs (n : Nat) (evs : List Ev) : Inv (run Cfg.clean n evs) ∧ Inv2 (run Cfg.clean n evs) := by
+theorem run_invs (n : Nat) (evs : List Ev) (hnd : ∀ e ∈ evs, e ≠ .drop) :
+    Inv (run Cfg.clean n evs) ∧ Inv2 (run Cfg.clean n evs) := by
   unfold run
   suffices ∀ s, Inv s → Inv2 s → Inv (evs.foldl (step Cfg.clean) s) ∧ Inv2 (evs.foldl (step Cfg.clean) s) from
     this _ (by intro v; simp [K]) (by intro v hv; simp at hv)
   induction evs with
   | nil => intro s h h2; exact ⟨h, h2⟩
-  | cons e es ih => intro s h h2; exact ih _ (step_inv s e h) (step_inv2 s e h h2)
+  | cons e es ih =>
+    intro s h h2
+    exact ih (fun e' he' => hnd e' (List.mem_cons_of_mem _ he')) _ (step_inv s e h)
+      (step_inv2 s e (hnd e List.mem_cons_self) h h2)
 
 /-- C12 (repaired): under every interleaving, a write that has arrived and whose timer is neither armed nor in
     flight any more has exactly one outcome — and while the timer is armed or in flight it has none yet -/
-theorem c12_exactly_one_outcome (n : Nat) (evs : List Ev) (w : Nat) (hw : w ∈ (run Cfg.clean n evs).seen) :
+theorem c12_exactly_one_outcome (n : Nat) (evs : List Ev) (hnd : ∀ e ∈ evs, e ≠ .drop) (w : Nat)
+    (hw : w ∈ (run Cfg.clean n evs).seen) :
     ((run Cfg.clean n evs).outcomes.map (·.1)).count w
       = if w ∈ (run Cfg.clean n evs).armed ∨ w ∈ (run Cfg.clean n evs).fired then 0 else 1 := by
-  have ⟨h, h2⟩ := run_invs n evs
+  have ⟨h, h2⟩ := run_invs n evs hnd
   have hk := h2 w hw
   simp only [K] at hk
   generalize run Cfg.clean n evs = s at hk ⊢
